@@ -19,8 +19,9 @@
   recursion from hard pulses `(c_j, s_j)` (`c_j > 0`) the backward recursion (code's `sqrt` formula for `cj`,
   generated `sj`, peel, slices) returns exactly the pulses, for every pulse length; `peel_step_partial` (one
   step, any valid pair).
-  Not carried by a theorem: IEEE rounding (`+eps`), numpy's cos/sin/exp/sqrt, that the forward recursion is what
-  hard-pulse simulation computes on the unit circle (round-trip oracle), `b2a/mag2mp`, `dzrf` filter design.
+  That the forward recursion IS what hard-pulse simulation computes (for every `z`), the unit-circle identity as a
+  polynomial identity, and both round trips `ab2rf ∘ forward = id`, `forward ∘ ab2rf = id` are in Props/C19Slr.lean.
+  Not carried by a theorem: IEEE rounding (`+eps`), numpy's cos/sin/exp/sqrt, `b2a/mag2mp`, `dzrf` filter design.
 -/
 import Mathlib.Data.Complex.Basic
 import Mathlib.Algebra.BigOperators.Group.List.Basic
@@ -545,6 +546,12 @@ theorem forall_mem_map {A B : Type} {f : A → B} {P : A → Prop} {Q : B → Pr
 /-- **unitarity of `sim.abrm` as generated from its source**, every waveform length -/
 theorem gen_unitary_abrm (w : List (CkAtoms ℂ)) (hw : ∀ p ∈ w, CkAtomsOk p) : nrm (abrmSim w (1, 0)) = 1 := by
   rw [abrmSim_eq]; exact sim_unitary_abrm _ (forall_mem_map hw ckParams_valid)
+
+/-- **unitarity of `sim.abrm(balanced=True)`**: the time loop followed by the generated rewinder block (a pure
+z-rotation: its axis is `(0, 0, om/|om|)`) -/
+theorem gen_unitary_abrm_balanced (w : List (CkAtoms ℂ)) (hw : ∀ p ∈ w, CkAtomsOk p) (q : CkAtoms ℂ) (hq : CkAtomsOk q)
+    (hz : q.nx = 0 ∧ q.ny = 0) : nrm (abrmBalanced q (abrmSim w (1, 0))) = 1 := by
+  rw [abrm_balanced_norm q hq hz, gen_unitary_abrm w hw]
 
 /-- **unitarity of `sim.abrm_nd`** -/
 theorem gen_unitary_abrm_nd (w : List (CkAtoms ℂ)) (hw : ∀ p ∈ w, CkAtomsOk p) : nrm (abrmNdSim w (1, 0)) = 1 := by
